@@ -375,17 +375,140 @@ func c06Rewind(c *core.Ctx) {
 	}
 }
 
+// c06Finality: a block that is delivered as finalized is never tracked, so a reorg of it would go unnoticed. Download must
+// therefore (a) sample the finalized block BEFORE it fetches the events of the range (a block fetched first, then replaced
+// and finalized, would be delivered with the stale hash and the finalized flag), and (b) hand exactly that sample,
+// clamped to the chain tip seen, to both report helpers; the helpers set the flag only for header.Num <= that value.
+func c06Finality(c *core.Ctx) {
+	const rule = "C06-finality"
+	fn := c.MustFn(rule, "sync", "EVMDownloader", "Download")
+	if fn == nil {
+		return
+	}
+	sx := core.NewSymx()
+	var fin, ev *ssa.Call
+	var reports []*ssa.Call
+	core.Instrs(fn, func(i ssa.Instruction) {
+		cl, ok := i.(*ssa.Call)
+		if !ok {
+			return
+		}
+		n := core.CallName(cl)
+		switch {
+		case strings.HasSuffix(n, ").GetLastFinalizedBlock"):
+			fin = cl
+		case strings.HasSuffix(n, ").GetEventsByBlockRange"):
+			ev = cl
+		case n == "(*sync.EVMDownloader).reportBlocks" || n == "(*sync.EVMDownloader).reportEmptyBlock":
+			reports = append(reports, cl)
+		}
+	})
+	if fin == nil || ev == nil || len(reports) == 0 {
+		c.Undecide(rule, "sync.(*EVMDownloader).Download#shape", fn.Pos(), "expected GetLastFinalizedBlock, GetEventsByBlockRange and the report helpers")
+		return
+	}
+	c.Decide(core.Dominates(fin, ev), rule, "sync.(*EVMDownloader).Download#sample-before-fetch", ev.Pos(), "the finalized block is sampled before the events of the range are fetched")
+	for k, r := range reports {
+		a := r.Call.Args[len(r.Call.Args)-1]
+		t := sx.Of(a).String()
+		ok := strings.HasPrefix(t, "builtin.min(") && strings.Contains(t, "GetLastFinalizedBlock(") && strings.Contains(t, ".Number)") && !strings.Contains(t, "+") && !strings.Contains(t, "-")
+		c.Decide(ok, rule, fmt.Sprintf("sync.(*EVMDownloader).Download#report-%d-finalized-arg", k+1), r.Pos(), "the report helper receives min(tip seen, sampled finalized block): "+t)
+	}
+	for _, h := range []string{"reportBlocks", "reportEmptyBlock"} {
+		hf := c.MustFn(rule, "sync", "EVMDownloader", h)
+		if hf == nil {
+			continue
+		}
+		ok := false
+		var seen []string
+		core.Instrs(hf, func(i ssa.Instruction) {
+			st, isSt := i.(*ssa.Store)
+			if !isSt || !strings.HasSuffix(sx.Of(st.Addr).String(), "IsFinalizedBlock") {
+				return
+			}
+			v := sx.Of(st.Val).String()
+			seen = append(seen, v)
+			if flagTermOK(v) {
+				ok = true
+			}
+		})
+		if !ok {
+			// literal form: EVMBlock{IsFinalizedBlock: …}
+			core.Instrs(hf, func(i ssa.Instruction) {
+				if al, isAl := i.(*ssa.Alloc); isAl {
+					t := sx.Of(al)
+					if f := t.Fields["IsFinalizedBlock"]; t.Op == "lit" && f != nil {
+						seen = append(seen, f.String())
+						if flagTermOK(f.String()) {
+							ok = true
+						}
+					}
+				}
+			})
+		}
+		c.Decide(ok, rule, "sync.(*EVMDownloader)."+h+"#flag", hf.Pos(), fmt.Sprintf("IsFinalizedBlock ← finality enabled && block number <= the finalized block it was given: %v", seen))
+	}
+}
+
+// c06Audit: the detector records a reorg_event row BEFORE it notifies the subscriber and gives up the tick when the insert
+// fails. The row's key must therefore tell two detections of the same (subscriber, from, to) range apart — it contains the
+// detection time — otherwise the second reorg over the same tracked range fails the insert on every tick and is never
+// notified. (If the notification did not depend on the insert the key would not matter: the rule checks that dependency.)
+func c06Audit(c *core.Ctx) {
+	const rule = "C06-audit"
+	fn := c.MustFn(rule, "reorgdetector", "ReorgDetector", "detectReorgInTrackedList")
+	if fn == nil {
+		return
+	}
+	var ins, notify ssa.Instruction
+	core.InstrsDeep(fn, func(_ *ssa.Function, i ssa.Instruction) {
+		switch {
+		case core.IsCallTo(i, "(*reorgdetector.ReorgDetector).insertReorgEvent"):
+			ins = i
+		case core.IsCallTo(i, "(*reorgdetector.ReorgDetector).notifySubscriber"):
+			notify = i
+		}
+	})
+	depends := ins != nil && notify != nil && ins.Parent() == notify.Parent() && core.Dominates(ins, notify)
+	s, probs := storeSchema(c, "reorgdetector")
+	for _, p := range probs {
+		c.Undecide(rule, "reorgdetector#schema-problem:"+p, token.NoPos, p)
+	}
+	t := s.Tables["reorg_event"]
+	hasTime := false
+	if t != nil {
+		for _, k := range t.PK {
+			if strings.EqualFold(k, "detected_at") {
+				hasTime = true
+			}
+		}
+	}
+	c.Decide(!depends || hasTime, rule, "reorgdetector.reorg_event#key-tells-detections-apart", token.NoPos,
+		fmt.Sprintf("the notification waits for the audit insert (%v); the audit key contains detected_at (%v)", depends, hasTime))
+}
+
+// flagTermOK: `enabled && num <= lastFinalizedBlock` as go/ssa renders a short-circuit: phi{const(false) | (num <= lastFinalizedBlock)}
+// guarded by IsFinalized(), or the plain conjunction.
+func flagTermOK(v string) bool {
+	if !strings.Contains(v, "<= lastFinalizedBlock)") || strings.Contains(v, "const(true)") {
+		return false
+	}
+	return strings.HasPrefix(v, "phi{const(false) | (") || strings.HasPrefix(v, "phi{(") && strings.HasSuffix(v, "| const(false)}") || strings.Contains(v, "IsFinalized(")
+}
+
 func init() {
 	register(&Property{
 		ID:    "C06",
 		Level: "other",
 		Explanation: "Decides the structural necessary conditions of reorg detection and rewind on every path: C06-track — the driver hands a block to the store only after the reorg detector accepted it for tracking (or it is finalized), tracking (id, b.Num, b.Hash) of the delivered block; C06-notify — the only send on Subscription.ReorgedBlock is notifySubscriber's, called from one site, only on the edge where the tracked hash differs from the current header's hash for the same number, with the current element of an ascending getSorted() range, leaving the loop after the first notification, and on the equal edge only finalized entries are dropped; C06-rewind/C06-value — handleReorg cancels the download before Reorg, passes the notified value unchanged, retries until Reorg returns nil, only then acknowledges, never returns without acknowledging, and Sync re-reads the last processed block and restarts the download afterwards (C05-restart). Convergence for all fork shapes, restart points and detector/driver interleavings is not decided.",
 		Rules: []Rule{
+			{ID: "C06-finality", Floor: 7, Run: c06Finality, Text: "[DOM]+[PROV] finalized block sampled before the fetch; both report helpers get min(tip, that sample); flag only for numbers <= it"},
+			{ID: "C06-audit", Floor: 1, Run: c06Audit, Text: "[SCHEMA]+[DOM] the audit row a notification waits for is keyed by detection time"},
 			{ID: "C06-track", Floor: 2, Run: c06Track, Text: "[DOM]+flag threading: ProcessBlock only after AddBlockToTrack()==nil or IsFinalizedBlock"},
 			{ID: "C06-tracked", Floor: 3, Run: c06Tracked, Text: "[WHO]+[DOM] a subscriber's tracked list is replaced only when absent/empty or from the database"},
 			{ID: "C06-notify", Floor: 8, Run: c06Notify, Text: "[WHO]+[DOM]+[PROV] single notifier, only on hash mismatch, first mismatching block in ascending order"},
 			{ID: "C06-rewind", Floor: 5, Run: c06Rewind, Text: "[DOM] cancel before Reorg; ack only after Reorg()==nil; no return without ack; detector waits for ack"},
-			{ID: "C06-reset", Floor: 2, Run: func(c *core.Ctx) { c05Restart(c) }, Text: "[PROV]+[DOM] (shared with C05-restart) Sync re-reads the last processed block after every reorg; reorg value passed unchanged"},
+			{ID: "C06-reset", Floor: 2, Run: shared("C06-reset", c05Restart), Text: "[PROV]+[DOM] (shared with C05-restart) Sync re-reads the last processed block after every reorg; reorg value passed unchanged"},
 		},
 	})
 }
